@@ -15,6 +15,7 @@ mod history;
 mod pool;
 mod render;
 mod trace_arrays;
+mod trace_math;
 mod trace_sink;
 mod trace_threads;
 mod util;
@@ -44,6 +45,9 @@ pub fn dispatch(rec: &J) -> Outcome {
     if kind == "render" || kind == "source" {
         return render::run(rec);
     }
+    if kind == "mathcase" || kind == "bigcheck" {
+        return Outcome::ok(true); // evaluated by the trace stage (binding B)
+    }
     if kind == "filter" {
         return filter::run(rec);
     }
@@ -66,6 +70,7 @@ fn main() {
             Some("sink") => trace_sink::main(&args[3..]),
             Some("threads") => trace_threads::main(&args[3..]),
             Some("arrays") => trace_arrays::main(&args[3..]),
+            Some("math") => trace_math::main(&args[3..]),
             _ => 2,
         },
         _ => {
